@@ -2838,13 +2838,28 @@ def rule_inverse_step(ctx, cfg, prog, rule='R-WORDALG/c++'):
             while isinstance(oc, dict) and oc.get('k') == 'cast':
                 oc = strip(oc['e'])
 
-            def _neg_call(x):
+            def _tt(x, env):
+                # truth value of the condition under an assignment of the two is_one() tests (None: not a boolean combination of them)
                 x = strip(x)
-                while isinstance(x, dict) and x.get('k') == 'cast':
+                while isinstance(x, dict) and x.get('k') in ('cast', 'paren'):
                     x = strip(x['e'])
-                return isinstance(x, dict) and x.get('k') == 'un' and x.get('op') == '!' and any(isinstance(y, dict) and y.get('k') == 'call' for y in walk(x['e']))
-            shape = isinstance(oc, dict) and oc.get('k') == 'bin' and oc.get('op') == '&&' and _neg_call(oc['lhs']) and _neg_call(oc['rhs'])
-            if [nm for (_, nm) in cnames] != ['is_one', 'is_one'] or len({o for (o, _) in cnames}) != 2 or not shape:
+                if not isinstance(x, dict):
+                    return None
+                if x.get('k') == 'call' and x.get('name') == 'is_one' and x.get('this') is not None:
+                    return env.get(pr_canon(x['this']))
+                if x.get('k') == 'un' and x.get('op') == '!':
+                    v_ = _tt(x['e'], env)
+                    return None if v_ is None else (not v_)
+                if x.get('k') == 'bin' and x.get('op') in ('&&', '||'):
+                    a_, b_ = _tt(x['lhs'], env), _tt(x['rhs'], env)
+                    if a_ is None or b_ is None:
+                        return None
+                    return (a_ and b_) if x['op'] == '&&' else (a_ or b_)
+                return None
+            objs_ = sorted({o for (o, _) in cnames})
+            shape = len(objs_) == 2 and all(_tt(oc, {objs_[0]: a_, objs_[1]: b_}) == ((not a_) and (not b_))
+                                            for a_ in (False, True) for b_ in (False, True))
+            if {nm for (_, nm) in cnames} != {'is_one'} or len(objs_) != 2 or not shape:
                 msgs.append('the loop condition is not `neither u nor v is one`')
         except Unsupported as e:
             raise bm.AnalysisBroken('R-WORDALG/c++ cannot model %s: %s' % (f['qn'], e))
